@@ -303,3 +303,47 @@ Proof.
   { induction a as [|x a IH]; cbn; [reflexivity|]. now rewrite N.eqb_refl, IH. }
   now rewrite Hr.
 Qed.
+
+(* ---------- C19: zero forms of term ids ---------- *)
+Theorem name_id_zero_form (k : str) (e e' : slenc) (id : N) :
+  encode_name_term_index str_eqb k e = Some (e', id) ->
+  (id = 0 /\ e_last_reused e' = e_last_reused e + 1) \/ (id = e_last_reused e' /\ id <> e_last_reused e + 1).
+Proof.
+  unfold encode_name_term_index. destruct (encode_term_index str_eqb k e) as [[e1 cur]|] eqn:E; [|discriminate].
+  assert (Hlr : e_last_reused e1 = cur).
+  { unfold encode_term_index in E. destruct (move_to_end _ _ _); [|discriminate]. destruct (find _ _ _); [|discriminate]. inversion E; reflexivity. }
+  destruct (cur =? e_last_reused e + 1) eqn:Ec; intros H; inversion H; subst.
+  - left. apply N.eqb_eq in Ec. split; [reflexivity|congruence].
+  - right. apply N.eqb_neq in Ec. split; congruence.
+Qed.
+
+Theorem prefix_id_zero_form (k : str) (e e' : slenc) (id : N) :
+  encode_prefix_term_index str_eqb (is_nil k) k e = Some (e', id) ->
+  id = 0 \/ (id = e_last_reused e' /\ (e_last_reused e = 0 \/ id <> e_last_reused e)).
+Proof.
+  unfold encode_prefix_term_index. destruct (l_max (e_lookup e) =? 0); [intros H; inversion H; now left|].
+  destruct (is_nil k && (e_last_reused e =? 0)); [intros H; inversion H; now left|].
+  destruct (encode_term_index str_eqb k e) as [[e1 cur]|] eqn:E; [|discriminate].
+  assert (Hlr : e_last_reused e1 = cur).
+  { unfold encode_term_index in E. destruct (move_to_end _ _ _); [|discriminate]. destruct (find _ _ _); [|discriminate]. inversion E; reflexivity. }
+  destruct (e_last_reused e =? 0) eqn:Ez.
+  - intros H; inversion H; subst. right. apply N.eqb_eq in Ez. split; [congruence|now left].
+  - destruct (cur =? e_last_reused e) eqn:Ec; intros H; inversion H; subst; [now left|].
+    right. apply N.eqb_neq in Ec. split; [congruence|now right].
+Qed.
+
+(* every row of a statement other than its entry rows is the statement row itself: the output is
+   never larger than one entry per key use plus one row per statement *)
+Theorem iri_rows_bounded (iri : str) (t t' : tenc) (rows : list row) (p n : N) :
+  encode_iri iri t = Ok (t', rows, p, n) -> (length rows <= 2)%nat.
+Proof.
+  unfold encode_iri. destruct (split_iri iri) as [prefix name0]. unfold bind.
+  destruct (lmax (t_prefixes t) =? 0).
+  - destruct (entry_index _ _ _) as [[[? ?] ne]|]; [|discriminate].
+    destruct (lift _ _) as [[? ?]|]; [|discriminate]. destruct (lift _ _) as [[? ?]|]; [|discriminate].
+    intros H; inversion H; subst. destruct ne; cbn; lia.
+  - destruct (entry_index _ _ _) as [[[? ?] pe]|]; [|discriminate]. cbn [bind].
+    destruct (entry_index _ _ _) as [[[? ?] ne]|]; [|discriminate].
+    destruct (lift _ _) as [[? ?]|]; [|discriminate]. destruct (lift _ _) as [[? ?]|]; [|discriminate].
+    intros H; inversion H; subst. destruct pe, ne; cbn; lia.
+Qed.
